@@ -8,7 +8,7 @@ for ws in e1_pull e1_sink e1_push e2_wakesim e6_gossip; do
   (cd "$ws" && cargo build --release --offline)
 done
 (cd e4_hydroprod && cargo build --release --offline -p e4_hydroprod)
-(cd e3_ticksim && cargo build --release --offline -p e3_ticksim)
+./e3_ticksim/warm.sh
 ./e5_hydrosim/warm.sh
 (cd e7_seedsim && ./build_shim.sh && cargo build --release --offline)
 echo "setup ok"
